@@ -11,7 +11,7 @@ COMPONENTS = {
     'C01': 'cachecomp', 'C05': 'cachecomp', 'C06': 'cachecomp',
     'C03': 'buffercomp', 'C07': 'buffercomp', 'C08': 'buffercomp',
     'C04': 'batchercomp', 'C09': 'batchercomp', 'C10': 'batchercomp', 'C11': 'batchercomp',
-    'C16': 'bridgecomp',
+    'C16': 'bridgecomp', 'C17': 'crossloopcomp',
     'C02': 'filelockcomp', 'C12': 'filelockcomp', 'C13': 'filelockcomp',
 }
 
